@@ -497,7 +497,9 @@ static bool check_parts2(const double *x, const double *y, size_t n, const linep
 			for (int d = 0; d < 2; ++d) {
 				if (inr(*gg[d], vv[d][o_i])) continue;
 				if (!inr(*gg[d], vv[d][n_i])) { defined = false; break; }
-				long double f = crossing(*gg[d], vv[d][o_i], vv[d][n_i]); any = true;
+				long double f = crossing(*gg[d], vv[d][o_i], vv[d][n_i]);
+				if (any && f != want && st) ++st->pair_frac_differ;   // both dimensions cross this segment, at different fractions
+				any = true;
 				if (f > want) want = f;
 			}
 			if (!defined) { if (st) ++st->pair_frac_undefined; continue; }
@@ -791,7 +793,7 @@ static void flush_stats(Run &r, const Stats &st)
 	r.count("join_merged", st.join_ok); r.count("join_refused", st.join_ref); r.count("join_spurious_refusals(not flagged)", st.join_spur);
 	r.count("array_history_reset_with_usr!=raw", st.hist_reset); r.count("pair_parts", st.pair_parts); r.count("pair_parts_cut_and_trim_usr=2", st.pair_cut_and_trim2);
 	r.count("pair_inputs_hidden_only_by_second_dimension", st.pair_hidden_by_second); r.count("pair_polyline_parts", st.pair_poly_parts); r.count("pair_history_reset_with_usr!=raw", st.pair_hist);
-	r.count("pair_fractions_checked", st.pair_frac_checked); r.count("pair_fractions_undefined(not judged)", st.pair_frac_undefined);
+	r.count("pair_fractions_checked", st.pair_frac_checked); r.count("pair_fractions_two_dimensions_cross_differently", st.pair_frac_differ); r.count("pair_fractions_undefined(not judged)", st.pair_frac_undefined);
 	r.count("cxx_array_parts", st.cxx_parts); r.count("polyline_parts", st.poly_parts); r.count("polyline_nothing_visible", st.poly_fail);
 }
 void mc_explore(Run &r, const std::string &job)
@@ -799,7 +801,7 @@ void mc_explore(Run &r, const std::string &job)
 	Stats st; memset(&st, 0, sizeof st);
 	for (const char *k : {"nontrivial", "parts_cut_only", "parts_trim_only", "parts_cut_and_trim", "parts_shared_endpoint(usr=raw+1)", "parts_with_hidden_values(usr<raw)",
 	                      "parts_at_limit(raw=65535)", "join_merged", "join_refused", "cxx_array_parts", "polyline_parts",
-	                      "array_history_reset_with_usr!=raw", "pair_parts", "pair_parts_cut_and_trim_usr=2", "pair_inputs_hidden_only_by_second_dimension", "pair_polyline_parts", "pair_history_reset_with_usr!=raw", "pair_fractions_checked"}) r.require(k);
+	                      "array_history_reset_with_usr!=raw", "pair_parts", "pair_parts_cut_and_trim_usr=2", "pair_inputs_hidden_only_by_second_dimension", "pair_polyline_parts", "pair_history_reset_with_usr!=raw", "pair_fractions_checked", "pair_fractions_two_dimensions_cross_differently"}) r.require(k);
 	if (job == "codes") { r.additive = true; r.enter(Vec(), "code"); code_job(r, st); ++r.executions; }
 	else dfs(r, [&](Ctx &x) { body(r, st, job, x); });
 	flush_stats(r, st);
